@@ -81,3 +81,12 @@ Print Assumptions gc_total_and_safe.
 Theorem heap_ok_implies_wf : forall L h root, heap_ok L h = true -> ptr_ok h root = true -> wf_heap L h root.
 Proof. exact heap_ok_wf. Qed.
 Print Assumptions heap_ok_implies_wf.
+
+(** the trailing-slot skips (gc.c:273-276) drop no unmarked pointer *)
+Theorem trailing_skip_sound : forall h ws p len n1 n2,
+  skip_marked h ws p len = Ok n1 -> skip_dups ws p n1 = Ok n2 ->
+  (n2 <= n1 <= len)%nat /\
+  forall i, (n2 < i <= len)%nat -> exists v, nth_error ws (p + i) = Some v /\
+    (is_imm v = true \/ ismarked h v \/ nth_error ws (p + n2) = Some v).
+Proof. exact trailing_skip. Qed.
+Print Assumptions trailing_skip_sound.
